@@ -7,7 +7,7 @@
     Representation invariant (holds for every message miekg unpacks from the
     wire and for every message the modelled code builds): a record has type 41
     exactly when it is an [OPT]; the model therefore tells OPT records by their
-    constructor where the Go code uses either the type assertion [.(*dns.OPT)]
+    constructor where the Go code uses either the type assertion a type assertion to dns.OPT
     or [Header().Rrtype == dns.TypeOPT].
 
     Executable model only; the proofs are in Proofs/Handler.v. *)
@@ -170,7 +170,18 @@ Fixpoint map_last_opt (f : opt -> opt) (ex : list rr) : option (list rr) :=
     end
   end.
 
-(** ** miekg: (*Msg).SetReply on a zero Msg *)
+(** ** miekg Pack followed by Unpack, as far as it changes a message the
+    modelled code builds: "Set extended rcode unconditionally if we have an
+    opt" — the extended-rcode byte of the last OPT becomes Rcode >> 4 (Unpack
+    puts it back into Rcode). This is what the peer sees. *)
+Definition with_ext (o : opt) (e : N) : opt := Opt (o_udp o) (o_do o) (o_ver o) e (o_opts o).
+Definition wire (m : msg) : msg :=
+  match map_last_opt (fun o => with_ext o (m_rcode m / 16)) (m_extra m) with
+  | Some ex => with_extra m ex
+  | None => m
+  end.
+
+(** ** miekg: Msg.SetReply on a zero Msg *)
 Definition opcode_query : N := 0.
 Definition set_reply (req : msg) : msg :=
   let isq := m_opcode req =? opcode_query in
